@@ -119,6 +119,9 @@ func (s *LiftedShare[E, FE]) UnmarshalCBOR(data []byte) error {
 	if err != nil {
 		return errs.Wrap(err).WithMessage("failed to unmarshal lifted share")
 	}
+	if dto == nil {
+		return sharing.ErrIsNil.WithMessage("LiftedShare DTO is nil")
+	}
 	ss, err := NewLiftedShare(dto.ID, dto.V...)
 	if err != nil {
 		return errs.Wrap(err).WithMessage("invalid lifted share data")
